@@ -737,28 +737,27 @@ def _run_e2e_one(ctx, case):
     """one complete crawl of the REAL application: hostile URLs first, a control URL on a well-behaved server last
     (concurrency 1).  The property fails when the crawl does not run to its normal end: it crashed, it stopped on
     an error before the control URL was requested, or it exited without the closing FINISHED statistics."""
+    import shutil
+    import tempfile
     from harness.fakes import crawl
-    if case.get('first_run'):
-        # two crawls in one work directory: the first leaves files behind (for --continue)
-        import shutil
-        import tempfile
-        work = tempfile.mkdtemp(prefix='verif-c09-')
-        try:
+    work = tempfile.mkdtemp(prefix='verif-c09-')
+    try:
+        if case.get('first_run'):
+            # two crawls in one work directory: the first leaves files behind (for --continue)
             first = dict(case, **case['first_run'])
             first.pop('first_run')
-            _crawl_once(ctx, first, lambda spec: crawl.run_once(work, spec, 150))
-            for name in ('db.sqlite', 'requests.log'):
+            _crawl_once(ctx, first, work, crawl)
+            for name in ('db.sqlite', 'requests.log', 'wpull.log'):
                 if os.path.exists(os.path.join(work, name)):
                     os.remove(os.path.join(work, name))
-            second = dict(case)
-            second.pop('first_run')
-            return _crawl_once(ctx, second, lambda spec: crawl.run_once(work, spec, 150))
-        finally:
-            shutil.rmtree(work, ignore_errors=True)
-    return _crawl_once(ctx, case, lambda spec: crawl.run_crawl(spec, timeout=150))
+            case = dict(case)
+            case.pop('first_run')
+        return _crawl_once(ctx, case, work, crawl)
+    finally:
+        shutil.rmtree(work, ignore_errors=True)
 
 
-def _crawl_once(ctx, case, runner):
+def _crawl_once(ctx, case, work, crawl):
     spec = {'args': list(case['args']), 'repo': ctx.repo,
             'site': {'ctl': {'/control': {'body': 'control'}, '/robots.txt': {'status': 404}}}}
     if case['proto'] == 'http':
@@ -767,22 +766,29 @@ def _crawl_once(ctx, case, runner):
     else:
         spec['ftp'] = case['ftp']
         spec['pre_hooks'] = ['harness.fakes.c09_ftpd.start']
-    r = runner(spec)
+    r = crawl.run_once(work, spec, 150)
+    try:
+        log = open(os.path.join(work, 'wpull.log'), encoding='utf-8', errors='replace').read()
+    except OSError:
+        log = ''
     reached = any(q.get('path') == '/control' for q in r.get('requests', []))
     err = r.get('stderr_tail') or ''
-    crashed = 'unexpectedly crashed' in err
-    finished = 'FINISHED.' in err          # the statistics line of a crawl that ran to its normal end
+    crashed = 'unexpectedly crashed' in err or 'unexpectedly crashed' in log
+    finished = ' - INFO - FINISHED.' in log          # the statistics line of a crawl that ran to its normal end
     res = {'exc': None, 'handled': True, 'stage': 'done', 'kind': 'e2e', 'ms': 0, 'exit_code': r.get('exit_code'),
            'rows': [[x['url'].split('/', 3)[-1][:40], x['status']] for x in r.get('rows', [])][:20]}
     if r.get('timed_out'):
         res.update(exc='crawl-timed-out', handled=False, mro=['crawl-timed-out'], where='timeout', msg='no result after 150 s')
     elif crashed or not reached or not finished:
-        lines = [ln for ln in err.splitlines() if ln.strip()]
         last = ''
-        for ln in lines:
-            if re.match(r'^(\w+\.)*\w*(Error|Exception)\b', ln) or ln.startswith('ERROR '):
-                last = ln
-        cls = re.match(r'^(?:ERROR )?((?:\w+\.)*\w+)', last).group(1) if last else 'unknown'
+        for ln in log.splitlines():
+            m = re.match(r'^((?:\w+\.)*\w*(?:Error|Exception|Timeout|TimedOut|Refused)\w*)\b', ln)
+            if m:
+                last = ln                        # the last line of a traceback
+            m2 = re.search(r' - ERROR - ((?:\w+\.)*\w+): ', ln)
+            if m2:
+                last = ln.split(' - ERROR - ', 1)[1]
+        cls = re.match(r'^((?:\w+\.)*\w+)', last).group(1) if last else 'unknown'
         res.update(exc='crawl-ended:' + cls, handled=False, mro=['crawl-ended'], msg=last[:200],
                    where='crashed' if crashed else 'exit-%s' % r.get('exit_code'), stage='crawl')
     return res
@@ -860,7 +866,7 @@ def _judge(cases, results, sets):
 
 
 QUICK = {'http': 8000, 'robots': 2500, 'ftp': 7000, 'scrape': 5000, 'e2e': 20}
-THOROUGH = {'http': 80000, 'robots': 24000, 'ftp': 80000, 'scrape': 56000, 'e2e': 320}
+THOROUGH = {'http': 64000, 'robots': 20000, 'ftp': 64000, 'scrape': 48000, 'e2e': 240}
 
 
 def correspondence(ctx):
@@ -869,7 +875,7 @@ def correspondence(ctx):
     if err:
         dis.append({'what': err})
     counts = THOROUGH if ctx.thorough else QUICK
-    nb = 8 if ctx.thorough else 1               # batches bound the memory of the thorough tier
+    nb = max(1, sum(counts.values()) // 8000)   # batches of about 8000 cases bound the memory (a case can be 150 kB of hex)
     cases, results, vio, remote = [], [], [], None
     for b in range(nb):
         cs = generate('main' if nb == 1 else 'main/%d' % b, {k: v // nb for k, v in counts.items()})
@@ -926,12 +932,22 @@ def correspondence(ctx):
 
 
 def search(ctx, disagreements):
-    """a proof / translator / correspondence broke: ten times the volume, other seeds"""
-    counts = {k: v * (2 if ctx.thorough else (3 if k == 'e2e' else 6)) for k, v in (THOROUGH if ctx.thorough else QUICK).items()}
-    cases = generate('search', counts)
-    results, _ = _run(ctx, cases)
-    _, vio = _judge(cases, results, None)
-    return vio
+    """a proof / translator / correspondence broke: several times the volume, other seeds (in batches of about 8000 cases)"""
+    counts = {k: v * (1 if ctx.thorough else (3 if k == 'e2e' else 6)) for k, v in (THOROUGH if ctx.thorough else QUICK).items()}
+    nb = max(1, sum(counts.values()) // 8000)
+    best = {}
+    for b in range(nb):
+        cs = generate('search/%d' % b, {k: v // nb for k, v in counts.items()})
+        if b:
+            cs = cs[len(CORPUS) + len(CORPUS_E2E):]
+        rs, _ = _run(ctx, cs)
+        _, vio = _judge(cs, rs, None)
+        for v in vio:
+            k = classify(v)
+            if k not in best or len(json.dumps(v['case'])) < len(json.dumps(best[k]['case'])):
+                best[k] = v
+        del cs, rs
+    return list(best.values())
 
 
 def replay(ctx, data):
